@@ -42,9 +42,11 @@ def parse_violation(r):
     prog, blk, idx, state, bi, bv = m[-1]
     runs_i = [(int(a), b) for a, b in re.findall(r'<<(\d+), "([^"]+)">>', bi)]
     runs_v = [(int(a), b) for a, b in re.findall(r'<<(\d+), "([^"]+)">>', bv)]
-    trace = re.findall(r"/\\ prog = \d+\n/\\ block = (\d+)\n/\\ idx = (\d+)\n/\\ state = (<<.*?>>)", r.out, re.S)
+    mq = re.findall(r"/\\ bad_query = (\{.*?\})", r.out, re.S)  # spec/RegionSound.tla (ALIAS CompactR)
+    runs_q = [(int(a), b) for a, b in re.findall(r'<<(\d+), "([^"]+)">>', mq[-1])] if mq else []
+    trace = re.findall(r"/\\ prog = \d+\n/\\ block = (\d+)\n/\\ idx = (\d+)\n/\\ state = (<<.*?>>)\n/\\ bad_invariant", r.out, re.S)
     return {"prog": int(prog), "block": int(blk), "idx": int(idx), "state": state, "bad_invariant": runs_i,
-            "bad_verdict": runs_v, "execution": [[int(a), int(b), c] for a, b, c in trace]}
+            "bad_verdict": runs_v, "bad_query": runs_q, "execution": [[int(a), int(b), c] for a, b, c in trace]}
 
 
 def explore(ck, label, programs, box=2, univ=12, timeout=1500, spec="ProgSound", max_iter=6, runner="prog_runner"):
@@ -87,6 +89,6 @@ def explore(ck, label, programs, box=2, univ=12, timeout=1500, spec="ProgSound",
         v["violated"] = sorted(set(r.violated))
         v["program"] = next(p for p in programs if p["id"] == v["prog"])
         viols.append(v)
-        for run, dom in v["bad_invariant"] + v["bad_verdict"]:
+        for run, dom in v["bad_invariant"] + v["bad_verdict"] + v["bad_query"]:
             excluded.append([v["prog"], run])
     return viols, merged, timeouts
